@@ -145,6 +145,28 @@ fn adv_part_sig(v: &SlateV4, env: &Env, sk: &SecretKey, sn: &SecretKey) -> Resul
 	aggsig::calculate_partial_sig(&s, sk, sn, &nsum, Some(&xsum), &msg).map_err(|e| format!("{:?}", e))
 }
 
+/// put the commitments in the order a wallet emits them (inputs, then outputs, each sorted as
+/// Transaction::validate demands): an adversary who adds or replaces a commitment would not
+/// give himself away by the sort order
+fn sort_coms(v: &mut SlateV4) {
+	if v.coms.is_none() {
+		return;
+	}
+	if let Some(mut tx) = Slate::from(v.clone()).tx {
+		tx.body.sort();
+		let mut cs: Vec<CommitsV4> = vec![];
+		if let core::core::Inputs::FeaturesAndCommit(ins) = tx.inputs() {
+			for i in ins.iter() {
+				cs.push(i.into());
+			}
+		}
+		for o in tx.outputs() {
+			cs.push(o.into());
+		}
+		v.coms = Some(cs);
+	}
+}
+
 /// Apply `class` to the wire slate.  Err = the class cannot be realised on this
 /// message (e.g. it needs a payment proof and there is none): the case is skipped,
 /// never silently replaced by something else.
@@ -356,6 +378,11 @@ pub fn apply(class: &str, v: &mut SlateV4, env: &Env) -> Result<(), String> {
 			})
 		}
 		other => return Err(format!("unknown tamper class {}", other)),
+	}
+	match class {
+		"out_add_adj" | "out_add_noadj" | "in_add_adj" | "inout_add_adj" | "out_replace" | "out_dup" | "out_to_in" | "commit_swap" | "out_feat_cb"
+		| "in_replace" | "in_to_out" => sort_coms(v),
+		_ => {}
 	}
 	Ok(())
 }
